@@ -443,16 +443,24 @@ func directed(rng *hlib.Rand, i int) hostile {
 		R := encodeNode([]elem{branch(20, offA)}, 0, size, 1)
 		d := cat([]byte("\x72\xC3\x63\x00"), A, pad, B, R)
 		return hostile{data: d, claimed: int64(len(d)), kind: "directed-alternating", content: make([]byte, 20)}
-	case 13: // long codec found at c64+64 (not at c64), 130 elements
-		a := 130
-		es := make([]elem, a)
-		for j := range es {
-			es[j] = elem{dsize: 1, ttag: 0xFF, stag: 0xFF, cptr: 10}
+	case 13: // long codec found at c64+64j for j = 0..3 (and at no lower j), up to 255 elements
+		j := rng.Intn(4)
+		c64 := rng.Intn(63)
+		pos := c64 + 64*j
+		a := pos + 2 + rng.Intn(8)
+		if a > 255 {
+			a = 255
 		}
-		pos := 3 + 64*rng.Intn(2)
+		if pos >= a {
+			pos, j = c64, 0
+		}
+		es := make([]elem, a)
+		for k := range es {
+			es[k] = elem{dsize: 1, ttag: 0xFF, stag: 0xFF, cptr: 10}
+		}
 		es[pos] = elem{ttag: 0xFD, stag: 0xFF, cptr: 0}
 		size := uint64(16*a + 16)
-		return hostile{data: encodeNode(es, 0x83, size, 1), claimed: int64(size), kind: "directed-long-codec", content: make([]byte, a-1)}
+		return hostile{data: encodeNode(es, 0x80|byte(c64), size, 1), claimed: int64(size), kind: "directed-long-codec", content: make([]byte, a-1)}
 	case 14: // empty branch elements and empty leaves around real ones
 		size := uint64(96 + 32)
 		child := encodeNode([]elem{leaf(0, 0)}, 0, size, 1)
